@@ -99,24 +99,33 @@ func c12ProgramFamilies(r *harness.Run) {
 		{"grow7-from130", lua.Options{RegistrySize: 130, RegistryMaxSize: 1 << 20, RegistryGrowStep: 7}},
 		{"grow32-from160", lua.Options{RegistrySize: 160, RegistryMaxSize: 1 << 20, RegistryGrowStep: 32}},
 	}
+	// value-stack exhaustion inside coroutines under the default (fixed) registry: a catchable error,
+	// the coroutine dead, everything else intact. (Not under the growing registries above: there
+	// 10 000 values fit and nothing is exhausted.)
+	{
+		pd := c03Runner(r)
+		pd.prop = "C12"
+		pd.sigPrefix = "p4/default/"
+		pd.runGens(map[string]Gen{"F-cooverflow": genCoOverflow()}, []string{"F-cooverflow"})
+	}
 	for _, cfg := range configs {
 		if r.Expired() {
 			r.NotExhaustive("deadline before part 4 configuration " + cfg.name)
 			return
 		}
 		pr := &progRunner{r: r, prop: "C12", opts: cfg.opts, sigPrefix: "p4/" + cfg.name + "/"}
-		gens := map[string]Gen{"F-growcross": genGrowCross(th), "F-callalign": genCallAlign(), "F-cooverflow": genCoOverflow()}
-		order := []string{"F-growcross", "F-callalign", "F-cooverflow"}
+		gens := map[string]Gen{"F-growcross": genGrowCross(th), "F-callalign": genCallAlign()}
+		order := []string{"F-growcross", "F-callalign"}
 		depths := []int{5, 6}
 		if th {
 			depths = []int{4, 5, 6, 7}
 		}
 		for _, d := range depths {
 			pre := fmt.Sprintf("D%d/", d)
-			for n, g := range map[string]Gen{"F-select": genSelectUnpack(th), "F-closure": genClosure(th), "F-genfor": genGenFor(th), "F-errval": genErrVal(th), "F-callmeta": genMetaCall(th), "F-index": genMetaIndex(th), "F-hostbody": genHostBody(), "F-cochain": genCoChain(), "F-cooverflow": genCoOverflow()} {
+			for n, g := range map[string]Gen{"F-select": genSelectUnpack(th), "F-closure": genClosure(th), "F-genfor": genGenFor(th), "F-errval": genErrVal(th), "F-callmeta": genMetaCall(th), "F-index": genMetaIndex(th), "F-hostbody": genHostBody(), "F-cochain": genCoChain()} {
 				gens[pre+n] = mapGen(g, pre, deepFrame(d))
 			}
-			order = append(order, pre+"F-select", pre+"F-closure", pre+"F-genfor", pre+"F-errval", pre+"F-callmeta", pre+"F-index", pre+"F-hostbody", pre+"F-cochain", pre+"F-cooverflow")
+			order = append(order, pre+"F-select", pre+"F-closure", pre+"F-genfor", pre+"F-errval", pre+"F-callmeta", pre+"F-index", pre+"F-hostbody", pre+"F-cochain")
 		}
 		gens["D6/F-call"] = mapGen(genCall(th), "D6/", deepFrame(6))
 		order = append(order, "D6/F-call")
